@@ -107,6 +107,14 @@ class C14(Prop):
                   "non-trivial = distinct cases where at least one directory is pruned or one ignore file is found below the origin")
         r = rng(seed, "c14")
         cases = self.gen(r, 200 if tier == "quick" else 3000)
+        # regression corpus (runs first): trees that once exposed a defect
+        cp = os.path.join(VERIF, "corpus", "discover")
+        corpus = []
+        for fn in sorted(os.listdir(cp)) if os.path.isdir(cp) else []:
+            corpus += [json.loads(l) for l in open(os.path.join(cp, fn)) if l.strip()]
+        for k, cc in enumerate(corpus):
+            cc["id"] = 900000 + k
+        cases = corpus + cases
         d = scratch("c14")
         write_jsonl(os.path.join(d, "cases.jsonl"), cases)
         rc, obs, out = run_harness("h_ignore", ["discover", os.path.join(d, "cases.jsonl"), os.path.join(d, "fs")], timeout=1200)
